@@ -1319,6 +1319,18 @@ class BayesianNetwork(DAG):
         if (do != {}) or (virtual_intervention != []):
             virt_nodes = [cpd.variables[0] for cpd in virtual_intervention]
             model = model.do(list(do.keys()) + virt_nodes)
+            # An intervened variable takes its do-value with probability 1, whatever its
+            # natural distribution (the value may have probability 0 there).
+            for var, state in do.items():
+                states = list(state_names[var])
+                model.add_cpds(
+                    TabularCPD(
+                        var,
+                        len(states),
+                        [[1.0 if s == state else 0.0] for s in states],
+                        state_names={var: states},
+                    )
+                )
             evidence = {**evidence, **do}
             virtual_evidence = [*virtual_evidence, *virtual_intervention]
 
